@@ -61,4 +61,9 @@ TEXT = {
    text="Theorems for every byte string s: quoteIdentifier(s) and quoteSQLString(s) are read back by the target dialect's lexer (ClickHouse rules: doubled quotes and backslash escapes) as exactly one token whose decoded content is s; under standard rules (no backslash escapes) they are still exactly one token (content with doubled backslashes). So no content can close a quote, open a comment or start a clause inside a quoted name or string. "
         "That every name/literal position of every program goes through these two functions (render included), number normalisation preserves the value, and the token structure of whole outputs is payload-independent are decided by byte-exact correspondence on programs whose literal and name contents come from a hostile pool, and by the C09 value oracle; not yet carried by a theorem.",
    note="Partial proof. The dialect's lexical rules are a written specification (coq/Spec/SqlLex.v). Parameter snippets are copied verbatim and are outside the claim."),
+ "C03": dict(
+   text="Theorem C03_joins (all join kinds, all condition lists, all left prefixes and right-hand pipelines, joins nested to any depth and any number of joins in sequence, all databases, all interpretations of pass-through functions): whenever the left-to-right interpreter - which at a join evaluates the parenthesised right-hand pipeline on its own and joins the table so far with it (default kind de-duplicates the left rows, inner keeps all matching pairs, leftouter also keeps unmatched left rows; a bare name k means $left.k == $right.k; conditions AND-ed) - yields a table r, evaluating the subqueries built by splitQueries yields r. "
+        "The proof is an induction over the operator tree with an invariant relating the SQL-side name space to the pipeline's (which subquery each side of a join reads from is exactly what the numbering decides); it uses injectivity of the generated names (proved from the decimal printer). "
+        "The text of the join source (DISTINCT wrapper, JOIN / LEFT JOIN, aliases, ON) and the plain-equality special case are tied by byte-exact correspondence on generated join shapes and on all small join conditions.",
+   note="Proof on the structured subqueries of the model under the naming condition `ok` (DESIGN.md D14: user names of the generated shape, or an `as` name reused as a table, are outside the theorem); text rendering tied by correspondence. C03_joins uses the standard-library functional-extensionality axiom; C03_joins_generic is axiom-free."),
 }
